@@ -132,6 +132,10 @@ def main(tier, seed):
             st = driver.run_stream(run, treedist, cases, d, name, "td_case", "td_case_code", PROP_BITS, shard=150)
             total_prop += st["prop_fail"] + st["impl_errors"]
             total_corr += st["corr_fail"]
+        rng_s = random.Random(seed + 77)
+        sc = [treedist.gen_scanner_case(rng_s) for _ in range(1500 if tier == "quick" else 20000)]
+        st = driver.run_stream(run, treedist.SCAN, sc, d, "td_scanner", "sc_case", "sc_case_code", (), shard=500)
+        total_corr += st["corr_fail"]
         known_witnesses(run, d)
         for name, cases in object_streams(tier, seed):
             st = driver.run_stream(run, OBJ, cases, d, name, "ob_case", "ob_case_code", OB_BITS, shard=150)
@@ -162,7 +166,9 @@ def main(tier, seed):
                  "white-space-laden and semicolon-less texts; seven name alphabets).  Object streams: Tree objects with "
                  "odd-but-legal names (blanks, quoted labels with _ [ ] quotes , : ; parentheses), all five Newick writers "
                  "re-parsed, and histories on one object (use, then swap/rename tips, reverse children, move/remove a tip, "
-                 "use again) checked against the reference values of the tree the object should now be.  Non-trivial = same taxon set of size "
+                 "use again) checked against the reference values of the tree the object should now be; raw texts "
+                 "(printed trees with quoted/blank names, damaged texts, random strings over ab'_ :();,-x) through "
+                 "get_bipartition against the scanner model.  Non-trivial = same taxon set of size "
                  ">= 4, no unary node, both trees have a non-trivial bipartition and a numeric rf came back; distinct by "
                  "full input." % ("1/97" if tier == "quick" else "all", 100 if tier == "quick" else 720))
     c["exhaustive"] = False
